@@ -1,9 +1,12 @@
 /-
   C01 — message framing round trip for every codec.  Property theorems only
-  (helper lemmas: Lemmas/Cobs.lean, Lemmas/Encode.lean).
+  (helper lemmas: Lemmas/Cobs.lean, Lemmas/Encode.lean, Lemmas/EncodeZpe.lean).
 -/
 import MptModel.Lemmas.Cobs
 import MptModel.Lemmas.Encode
+import MptModel.Lemmas.EncodeZpe
+import MptModel.Lemmas.EncodeString
+import MptModel.Lemmas.DecodeCommand
 namespace Mpt.C01
 open Mpt.Cobs Mpt.Codec
 
@@ -66,18 +69,32 @@ example : pyEnc [1, 0, 2] = [2, 1, 2, 2, 0] := by decide
 
 /-! ### the implementation model refines the reference encoder -/
 
-/-- full statement: whatever the pieces and however the window grows, a finished frame decodes to the
-    message (all four framings) -/
-def encoder_refines_statement : Prop :=
-  ∀ (v : Variant) (fill : Byte) (fuel : Nat) (win : List Byte) (chunks : List (List Byte)) (caps : List Nat) (o : EncOut),
-    encodeSched (.cobs v) fill fuel {} win chunks caps = .ok o →
-    dec v (o.win.take o.st.done) = some chunks.flatten
+/-- The model encoder refines the reference encoder, all four framings: whatever the pieces in which the
+    message is pushed and however the window is granted (`caps` = arbitrary growth schedule; calls that take
+    only part of their input or ask for space are retried), a finished frame decodes to the message, ends
+    in its only zero byte, and is the reference encoding of the message for the marking that cuts where
+    the encoder calls ended. -/
+theorem encoder_refines (v : Variant) (fill : Byte) (fuel : Nat) (win : List Byte) (chunks : List (List Byte))
+    (caps : List Nat) (o : EncOut) (h : encodeSched (.cobs v) fill fuel {} win chunks caps = .ok o) :
+    dec v (o.win.take o.st.done) = some chunks.flatten ∧
+    (∀ b ∈ (o.win.take o.st.done).dropLast, b ≠ 0) ∧ (o.win.take o.st.done).getLast? = some 0 ∧
+    ∃ ms, ms.map Prod.fst = chunks.flatten ∧ o.win.take o.st.done = encB v [] false ms ++ [0] := by
+  have hinv : EncInvM v {} win [] [] := EncInvM.start v {} win [] rfl rfl (by simp) (by simp)
+  obtain ⟨ms, e1, _, _, e4⟩ := sched_refinesM v fill fuel {} win chunks caps [] [] o hinv h
+  simp only [List.map_nil, List.nil_append] at e1 e4
+  refine ⟨?_, ?_, ?_, ms, e1, e4⟩
+  · rw [e4, dec_body_frame v ms, e1]
+  · rw [e4, List.dropLast_concat]; exact encB_nz v ms [] false (Inv.nil v)
+  · rw [e4]; simp
+
+example : (encodeSched (.cobs .zpe) 0xEE 20 {} [] [[7, 0], [0, 9]] [2, 2, 2, 2]).toOption.map
+    (fun o => o.win.take o.st.done) = some (encChunks .zpe [[7, 0], [0, 9]]) := by decide
 
 /-- COBS and COBS/R: for every split of the message into push calls and every capacity growth schedule
     (including calls that consume only part of their input or ask for space) the model encoder's finished
-    data is exactly the reference frame.  Missing for the full statement: the two ZPE framings, whose
-    frame depends on where the calls end (correspondence-checked against `encChunks`, see `roundtrip_chunks`). -/
-theorem encoder_refines_partial (v : Variant) (hz : v.isZpe = false) (fill : Byte) (fuel : Nat) (win : List Byte)
+    data is exactly the reference frame `enc v m` (for the ZPE framings the frame depends on where the calls
+    end, see `encoder_refines`). -/
+theorem encoder_refines_exact (v : Variant) (hz : v.isZpe = false) (fill : Byte) (fuel : Nat) (win : List Byte)
     (chunks : List (List Byte)) (caps : List Nat) (o : EncOut)
     (h : encodeSched (.cobs v) fill fuel {} win chunks caps = .ok o) :
     o.win.take o.st.done = enc v chunks.flatten ∧ dec v (o.win.take o.st.done) = some chunks.flatten := by
@@ -107,6 +124,47 @@ theorem encoder_total (v : Variant) (hz : v.isZpe = false) (fill : Byte) (win : 
       o.win.take o.st.done = enc v chunks.flatten := by
   have hinv : EncInv v {} win [] [] := EncInv.start v {} win [] rfl rfl (by simp) (by simp)
   obtain ⟨o, ho⟩ := sched_total v hz fill chunks {} win [] [] hne (by simpa using hsp) hinv
-  exact ⟨o, ho, (encoder_refines_partial v hz fill _ win chunks [] o ho).1⟩
+  exact ⟨o, ho, (encoder_refines_exact v hz fill _ win chunks [] o ho).1⟩
+
+
+/-- the same for all four framings (the frame then decodes to the message) -/
+theorem encoder_total_all (v : Variant) (fill : Byte) (win : List Byte) (chunks : List (List Byte))
+    (hne : ∀ c ∈ chunks, c ≠ []) (hsp : 2 * chunks.flatten.length + chunks.length + 2 ≤ win.length) :
+    ∃ o, encodeSched (.cobs v) fill (chunks.length + 1) {} win chunks [] = .ok o ∧
+      dec v (o.win.take o.st.done) = some chunks.flatten := by
+  have hinv : EncInvM v {} win [] [] := EncInvM.start v {} win [] rfl rfl (by simp) (by simp)
+  obtain ⟨o, ho⟩ := sched_totalM v fill chunks {} win [] [] hne (by simpa using hsp) hinv
+  exact ⟨o, ho, (encoder_refines v fill _ win chunks [] o ho).1⟩
+
+
+/-! ### command text: the models of mpt_encode_string / mpt_decode_command -/
+
+/-- the model of `mpt_encode_string` produces the reference frame `m ++ [0]` (one push and the termination
+    on a window with room) … -/
+theorem cmd_encoder_refines (win m : List Byte) (hm : m ≠ []) (hz : (0 : Byte) ∉ m) (hw : m.length + 1 ≤ win.length) :
+    ∃ o1 o2, encodeString {} win (some m) = .ok o1 ∧ o1.ret = m.length ∧
+      encodeString o1.st o1.win none = .ok o2 ∧ o2.win.take o2.st.done = m ++ [0] ∧ some (m ++ [0]) = encStr m :=
+  encodeString_frame win m hm hz hw
+
+/-- … and refuses a zero byte in the part it would copy -/
+theorem cmd_encoder_refuses (st : EncState) (win m : List Byte) (hs : st.scratch = 0 ∧ st.ctx = 0)
+    (hz : (0 : Byte) ∈ m.take (min m.length (win.length - st.done))) (hd : st.done < win.length) (hm : m ≠ []) :
+    encodeString st win (some m) = .err .BadEncoding :=
+  encodeString_refuses st win m hs hz hd hm
+
+/-- the model of `mpt_decode_command`, on a state between two messages with the two bytes of head room the
+    header needs and a complete frame `body ++ [0]` at the input position: it delivers (return 1) exactly
+    the reference decoding (header ++ text), consumes the frame, and its two stores lie behind the input
+    position -/
+theorem cmd_decoder_refines (st : DecState) (segs : List Seg) (body junk : List Byte)
+    (hlen : st.len - st.msg.getD 0 = 0) (hpos : 2 ≤ st.curr)
+    (hin : (flat segs).drop st.curr = body ++ 0 :: junk) (hnz : ∀ x ∈ body, x ≠ 0) :
+    (decodeCommand st segs false).ret = .val 1 ∧
+    decCmd (body ++ [0]) = some (decodeCommand st segs false).region ∧
+    (decodeCommand st segs false).st.curr = st.curr + body.length + 1 ∧
+    (∀ x ∈ (decodeCommand st segs false).writes, x.1 < x.2 ∧ x.2 ≤ (flat segs).length) :=
+  decodeCommand_honest st segs body junk hlen hpos hin hnz
+
+example : (decodeCommand { curr := 2 } [(0, [0xdd, 0xdd, 0x68, 0x69, 0, 7])] false).region = [0x04, 0x20, 0x68, 0x69] := by decide
 
 end Mpt.C01
